@@ -1,5 +1,5 @@
 """C19 - the Markdown matcher recognises Gherkin lines as MARKDOWN_WITH_GHERKIN.md specifies."""
-from . import markdown_rules as md, matcher_rules as mr, totality_rules as tr
+from . import markdown_rules as md, matcher_rules as mr, totality_rules as tr, dialect_rules as dr, misc_rules as ms
 
 META = {
     "level": "other",
@@ -23,3 +23,9 @@ def run(rep):
     mr.rule_docstring_fsm(rep, "C19.docstring", cls_q=md.MDQ, openers=('"""', "````", "```"))
     mr.rule_reset(rep, "C19.reset", classes=(md.MDQ,))
     mr.rule_sink(rep, "C19.col", "C19.crlf", want=("col",))
+    # "for every dialect": the keyword lists the patterns are built from are the table's own, and nothing computed for one
+    # matcher or dialect is kept for another (no shared mutable state, no identity-keyed caches)
+    dr.rule_data(rep, "C19.data")
+    dr.rule_dialect(rep, "C19.dialect")
+    ms.rule_shared(rep, "C19.shared")
+    ms.rule_det(rep, "C19.det")
